@@ -469,6 +469,44 @@ func ruleCredentialsPresented(c *Ctx, rid string) {
 			c.check(found, rid, key+"/"+setter, c.P.instrPos(auth), setter+"(parameter) precedes Authenticate on the same connection", "Authenticate is called without "+setter+" having stored the presented credential on that connection first: stale or no credentials are tested")
 		}
 	}
+	// the setters themselves store what they are given on every path: a guard such as "ignore an
+	// empty user name" leaves the credential of an earlier AUTH on the connection, and the next
+	// AUTH is judged against it
+	for _, setter := range []string{"SetPassword", "SetUserName"} {
+		fn := c.P.Method(pkgRedis, "Conn", setter)
+		if fn == nil || fn.Blocks == nil || len(fn.Params) < 2 {
+			c.undecided(rid, "Conn."+setter, "", "setter not found")
+			continue
+		}
+		par := fn.Params[1]
+		stores := map[*ssa.BasicBlock]bool{}
+		allInstrs(fn, func(ins ssa.Instruction) {
+			if st, ok := ins.(*ssa.Store); ok && strip(st.Val) == ssa.Value(par) {
+				if _, _, base, ok := fieldOf(st.Addr); ok && strip(base) == ssa.Value(fn.Params[0]) {
+					stores[st.Block()] = true
+				}
+			}
+		})
+		// every return is reached only through a storing block
+		uncond := len(stores) > 0
+		seen := map[*ssa.BasicBlock]bool{}
+		stack := []*ssa.BasicBlock{fn.Blocks[0]}
+		for len(stack) > 0 && uncond {
+			b := stack[len(stack)-1]
+			stack = stack[:len(stack)-1]
+			if seen[b] || stores[b] {
+				continue
+			}
+			seen[b] = true
+			for _, ins := range b.Instrs {
+				if _, isRet := ins.(*ssa.Return); isRet {
+					uncond = false
+				}
+			}
+			stack = append(stack, b.Succs...)
+		}
+		c.check(uncond, rid, "Conn."+setter+"/unconditional", c.P.pos(fn.Pos()), "stores its argument on every path", "the setter can return without storing its argument: the credential of an earlier AUTH stays on the connection and the next AUTH is judged against it")
+	}
 	execs, _ := c.P.executors()
 	for _, e := range execs {
 		allInstrs(e.Fn, func(ins ssa.Instruction) {
@@ -861,8 +899,22 @@ func ruleNoSharedCapture(c *Ctx, rid string) {
 			if !ok {
 				return
 			}
-			fv, ok := st.Addr.(*ssa.FreeVar)
-			if !ok {
+			// the captured variable itself, or a field/element of it
+			var fv *ssa.FreeVar
+			for a, d := st.Addr, 0; a != nil && d < 4; d++ {
+				switch x := a.(type) {
+				case *ssa.FreeVar:
+					fv = x
+					a = nil
+				case *ssa.FieldAddr:
+					a = x.X
+				case *ssa.IndexAddr:
+					a = x.X
+				default:
+					a = nil
+				}
+			}
+			if fv == nil {
 				return
 			}
 			if cell := outerCell(fv); cell != nil {
@@ -887,8 +939,11 @@ func runC09(c *Ctx) {
 	ruleTLSGateBeforeLoop(c, "R09.b")
 	ruleLeafCommonName(c, "R09.c")
 	ruleAcceptLoops(c, "R09.d")
+	ruleGoroutineOwnsItsIteration(c, "R09.d")
 	ruleOwnListenerOnly(c, "R09.e")
 	ruleAuthenticatorListOwnership(c, "R09.f")
+	// a certificate rule's refusal must not be overridden by a later authenticator's acceptance
+	ruleEqualityForSuccess(c, "R09.g")
 	ruleCloseOnEveryExit(c, "R19.a")
 	c.assume("crypto/tls performs X.509 path validation and expiry checks for RequireAndVerifyClientCert; an application-supplied tls.Config (ConfigTLSConfig) replaces the generated one")
 }
